@@ -1158,8 +1158,397 @@ impl Part for SharedObjects {
 // main
 // ------------------------------------------------------------------------------------------------
 
+
+// ------------------------------------------------------------------------------------------------
+// E3f: first calls. Every short sequence of operations is run in a FRESH process, so that the first
+// library call of the process is each operation in turn (lazily built process-wide state shows here:
+// everything else in this harness runs after thousands of earlier calls)
+// ------------------------------------------------------------------------------------------------
+
+const FC_SUITES: [SuiteId; 6] = [
+    SuiteId { kem: Kem::X25519, kdf: Kdf::Sha256, aead: Aead::ChaCha20Poly1305 },
+    SuiteId { kem: Kem::X25519, kdf: Kdf::Sha512, aead: Aead::Aes256Gcm },
+    SuiteId { kem: Kem::P256, kdf: Kdf::Sha256, aead: Aead::Aes128Gcm },
+    SuiteId { kem: Kem::P256, kdf: Kdf::Sha256, aead: Aead::ExportOnly },
+    SuiteId { kem: Kem::P384, kdf: Kdf::Sha384, aead: Aead::Aes256Gcm },
+    SuiteId { kem: Kem::P521, kdf: Kdf::Sha512, aead: Aead::ChaCha20Poly1305 },
+];
+const FC_KINDS: [&str; 10] = [
+    "derive_keypair", "gen_keypair", "sk_to_pk", "setup_sender(Base)+seal+export", "setup_receiver(Base)+open+export", "setup_sender(AuthPsk)+seal+export",
+    "setup_receiver(AuthPsk)+open+export", "single_shot_seal(Psk)", "single_shot_open(Auth)", "decap",
+];
+
+fn fc_name(o: usize) -> String {
+    format!("{} on {}", FC_KINDS[o % FC_KINDS.len()], FC_SUITES[o / FC_KINDS.len()].name())
+}
+
+/// performs operation `o` on the real library and compares everything it returns with R1
+fn fc_run(o: usize, seed: u64) -> Result<(), String> {
+    use hpke_mc::props::r1_setup_r;
+    use hpke_mc::suites::suite_ops;
+    let suite = FC_SUITES[o / FC_KINDS.len()];
+    let kind = o % FC_KINDS.len();
+    let tag = 31_000 + (o / FC_KINDS.len()) as u64;
+    let k = keys(suite.kem, tag, seed);
+    let info = bytes(Fill::Mix, 13, tag, seed);
+    let psk = bytes(Fill::Mix, 32, tag + 1, seed);
+    let psk_id = bytes(Fill::Mix, 7, tag + 2, seed);
+    let ops = suite_ops(suite);
+    let kem = ops.kem();
+    let pt = bytes(Fill::Mix, 21, tag + 3, seed);
+    let aad = bytes(Fill::Mix, 5, tag + 4, seed);
+    let can_seal = suite.aead.can_seal();
+    let cmp = |what: &str, got: Obs<Vec<u8>>, want: &[u8]| -> Result<(), String> {
+        match got {
+            Obs::Ok(v) if v == want => Ok(()),
+            o => Err(format!("{}: got {} want {}", what, match &o { Obs::Ok(v) => obs::hx(v), x => x.class() }, obs::hx(want))),
+        }
+    };
+    match kind {
+        0 | 1 => {
+            let ikm = bytes(Fill::Mix, suite.kem.nsk(), tag + 5, seed);
+            let (sk, pk, _) = suite.kem.derive_keypair(&ikm);
+            let got = if kind == 0 { kem.derive_keypair(&ikm) } else { kem.gen_keypair(&mut ScriptRng::new(&ikm)) };
+            cmp("key pair (sk || pk)", got.map(|(a, b)| [a, b].concat()), &[sk, pk].concat())
+        }
+        2 => cmp("public key of skR", kem.sk_to_pk(&k.sk_r), &k.pk_r),
+        3 | 5 | 4 | 6 => {
+            let mode = if kind <= 4 { Mode::Base } else { Mode::AuthPsk };
+            let m = mode_spec(mode, &k, &psk, &psk_id);
+            let (enc, mut rs) = r1_setup_s(suite, &m, &k.pk_r, &info, &k.ikm_e).ok_or("R1 setup failed")?;
+            let ct = if can_seal { rs.seal(&aad, &pt).map_err(|_| "R1 seal failed")? } else { vec![] };
+            let exp = rs.export(b"first", 33).map_err(|_| "R1 export failed")?;
+            if kind == 3 || kind == 5 {
+                match ops.setup_sender(&m, &k.pk_r, &info, &mut ScriptRng::new(&k.ikm_e)) {
+                    Obs::Ok((e, mut s)) => {
+                        cmp("enc", Obs::Ok(e), &enc)?;
+                        if can_seal {
+                            cmp("first ciphertext", s.seal(&pt, &aad), &ct)?;
+                        }
+                        cmp("sender export", s.export(b"first", 33), &exp)
+                    }
+                    o => Err(format!("setup_sender: {}", o.map(|_| ()).class())),
+                }
+            } else {
+                let _ = r1_setup_r(suite, &m, &enc, &k.sk_r, &info).ok_or("R1 receiver setup failed")?;
+                match ops.setup_receiver(&m, &k.sk_r, &enc, &info) {
+                    Obs::Ok(mut r) => {
+                        if can_seal {
+                            cmp("first plaintext", r.open(&ct, &aad), &pt)?;
+                        }
+                        cmp("receiver export", r.export(b"first", 33), &exp)
+                    }
+                    o => Err(format!("setup_receiver: {}", o.map(|_| ()).class())),
+                }
+            }
+        }
+        7 | 8 => {
+            if !can_seal {
+                return Ok(());
+            }
+            let mode = if kind == 7 { Mode::Psk } else { Mode::Auth };
+            let m = mode_spec(mode, &k, &psk, &psk_id);
+            let (enc, mut rs) = r1_setup_s(suite, &m, &k.pk_r, &info, &k.ikm_e).ok_or("R1 setup failed")?;
+            let ct = rs.seal(&aad, &pt).map_err(|_| "R1 seal failed")?;
+            if kind == 7 {
+                cmp("enc || ciphertext", ops.single_shot_seal(&m, &k.pk_r, &info, &pt, &aad, &mut ScriptRng::new(&k.ikm_e)).map(|(a, b)| [a, b].concat()), &[enc, ct].concat())
+            } else {
+                cmp("plaintext", ops.single_shot_open(&m, &k.sk_r, &enc, &info, &ct, &aad), &pt)
+            }
+        }
+        _ => {
+            let (sk_e, _, _) = suite.kem.derive_keypair(&k.ikm_e);
+            let (ss, enc) = suite.kem.encap(&k.pk_r, None, &sk_e).ok_or("R1 encap failed")?;
+            cmp("shared secret", kem.decap(&k.sk_r, None, &enc), &ss)
+        }
+    }
+}
+
+/// child process: `sched --firstcall <seed> <op> [<op> ...]`
+fn fc_child(args: &[String]) -> ! {
+    obs::install_panic_hook();
+    let seed: u64 = args[0].parse().expect("seed");
+    for (i, a) in args[1..].iter().enumerate() {
+        let o: usize = a.parse().expect("op index");
+        match fc_run(o, seed) {
+            Ok(()) => println!("FC {} ok", i),
+            Err(e) => println!("FC {} MISMATCH {}", i, e),
+        }
+    }
+    std::process::exit(0)
+}
+
+#[derive(Clone, Debug, Serialize, Deserialize)]
+struct FcCase {
+    ops: Vec<usize>,
+}
+
+struct FirstCalls {
+    len3_suites: usize,
+}
+
+impl Part for FirstCalls {
+    type Case = FcCase;
+    fn name(&self) -> String {
+        "E3f-first-calls-in-fresh-processes".into()
+    }
+    fn rule(&self) -> String {
+        "every sequence of 1 or 2 operations (thorough: also 3 over a sub-alphabet) from {derive_keypair, gen_keypair, sk_to_pk, setup_sender+seal+export (Base, AuthPsk), setup_receiver+open+export (Base, AuthPsk), single_shot_seal (Psk), single_shot_open (Auth), decap} x 6 suites (two per X25519 and P-256 so that suites sharing a KEM follow each other) is executed in its OWN freshly started process, so that each operation is once the very first library call of a process and once the successor of every other operation; all inputs come from R1 (no library call is needed to prepare them) and every output is compared with R1".into()
+    }
+    fn bound(&self, cfg: &Cfg) -> String {
+        let n = FC_SUITES.len() * FC_KINDS.len();
+        format!("{} operations: {} singles + {} ordered pairs{}", n, n, n * n, if cfg.tier.thorough() { format!(" + {} ordered triples over the first {} suites", (self.len3_suites * FC_KINDS.len()).pow(3), self.len3_suites) } else { String::new() })
+    }
+    fn rerun_check(&self) -> bool {
+        false
+    }
+    fn enumerate(&self, cfg: &Cfg) -> Vec<FcCase> {
+        let n = FC_SUITES.len() * FC_KINDS.len();
+        let mut v: Vec<FcCase> = (0..n).map(|a| FcCase { ops: vec![a] }).collect();
+        for a in 0..n {
+            for b in 0..n {
+                v.push(FcCase { ops: vec![a, b] });
+            }
+        }
+        if cfg.tier.thorough() {
+            let m = self.len3_suites * FC_KINDS.len();
+            for a in 0..m {
+                for b in 0..m {
+                    for c in 0..m {
+                        v.push(FcCase { ops: vec![a, b, c] });
+                    }
+                }
+            }
+        }
+        v
+    }
+    fn run(&self, cfg: &Cfg, c: &FcCase) -> CaseOut {
+        let mut out = CaseOut::new();
+        out.nontrivial = true;
+        out.outcome = format!("len{}", c.ops.len());
+        let exe = match std::env::current_exe() {
+            Ok(e) => e,
+            Err(e) => {
+                out.fail_machinery(format!("current_exe: {}", e));
+                return out;
+            }
+        };
+        let mut cmd = std::process::Command::new(exe);
+        cmd.arg("--firstcall").arg(cfg.seed.to_string());
+        for o in &c.ops {
+            cmd.arg(o.to_string());
+        }
+        let res = match cmd.output() {
+            Ok(r) => r,
+            Err(e) => {
+                out.fail_machinery(format!("cannot start the child process: {}", e));
+                return out;
+            }
+        };
+        let text = String::from_utf8_lossy(&res.stdout).to_string();
+        let names: Vec<String> = c.ops.iter().map(|o| fc_name(*o)).collect();
+        let mut seen = 0;
+        for line in text.lines() {
+            if let Some(rest) = line.strip_prefix("FC ") {
+                seen += 1;
+                out.transitions += 1;
+                let mut it = rest.splitn(3, ' ');
+                let i: usize = it.next().and_then(|x| x.parse().ok()).unwrap_or(0);
+                if it.next() == Some("MISMATCH") {
+                    let before = if i == 0 { "as the FIRST library call of a fresh process".to_string() } else { format!("in a fresh process after [{}]", names[..i].join("; ")) };
+                    out.fail(format!("{} {}: {}", names[i], before, it.next().unwrap_or("")));
+                }
+            }
+        }
+        if seen != c.ops.len() {
+            out.fail(format!("fresh process running [{}] ended after {} of {} operations (status {:?}): a library call took the process down", names.join("; "), seen, c.ops.len(), res.status.code()));
+        }
+        out
+    }
+}
+
+
+// ------------------------------------------------------------------------------------------------
+// E3g: long process histories. One fresh process performs more than 2^16 operations of one kind, spread
+// round-robin over several contexts / suites, every result compared with R1: process-wide bookkeeping
+// (a counter of calls, a cache that fills up) shows only after many calls ANYWHERE in the process
+// ------------------------------------------------------------------------------------------------
+
+const LR_KINDS: [&str; 7] = ["seal", "open", "export", "setup_sender", "setup_receiver", "derive_keypair", "single_shot_seal"];
+
+fn lr_child(args: &[String]) -> ! {
+    use hpke_mc::props::r1_setup_r;
+    use hpke_mc::suites::suite_ops;
+    obs::install_panic_hook();
+    let seed: u64 = args[0].parse().expect("seed");
+    let kind: usize = args[1].parse().expect("kind");
+    let n: u64 = args[2].parse().expect("n");
+    let suites = [FC_SUITES[0], FC_SUITES[2], FC_SUITES[1]];
+    let fail = |i: u64, msg: String| -> ! {
+        println!("LR MISMATCH operation #{} of the process: {}", i, msg);
+        std::process::exit(0)
+    };
+    match kind {
+        0 | 1 | 2 => {
+            // three live sender/receiver pairs on different suites
+            let mut ctxs = vec![];
+            for (j, suite) in suites.iter().enumerate() {
+                let k = keys(suite.kem, 32_000 + j as u64, seed);
+                let m = mode_spec(Mode::Base, &k, b"", b"");
+                let info = bytes(Fill::Mix, 4, 32_000 + j as u64, seed);
+                let (enc, rs) = r1_setup_s(*suite, &m, &k.pk_r, &info, &k.ikm_e).expect("R1 setup");
+                let _ = r1_setup_r(*suite, &m, &enc, &k.sk_r, &info).expect("R1 setup_r");
+                let ops = suite_ops(*suite);
+                let s = match ops.setup_sender(&m, &k.pk_r, &info, &mut ScriptRng::new(&k.ikm_e)) {
+                    Obs::Ok(x) => x.1,
+                    o => fail(0, format!("setup_sender: {}", o.map(|_| ()).class())),
+                };
+                let r = match ops.setup_receiver(&m, &k.sk_r, &enc, &info) {
+                    Obs::Ok(x) => x,
+                    o => fail(0, format!("setup_receiver: {}", o.map(|_| ()).class())),
+                };
+                ctxs.push((s, r, rs, 0u64));
+            }
+            for i in 0..n {
+                let j = (i % 3) as usize;
+                let (s, r, rs, pos) = &mut ctxs[j];
+                let pt = [b'l', (i % 251) as u8, (i >> 8) as u8];
+                let aad = (i as u32).to_le_bytes();
+                match kind {
+                    0 => {
+                        let want = rs.seal_at(*pos as u128, &aad, &pt);
+                        let got = if i % 2 == 0 {
+                            s.seal(&pt, &aad)
+                        } else {
+                            let mut b = pt.to_vec();
+                            s.seal_ip(&mut b, &aad).map(|t| [&b[..], &t[..]].concat())
+                        };
+                        if got != Obs::Ok(want) {
+                            fail(i, format!("seal #{} of context {} ({}) differs from R1's ciphertext at sequence number {}: {}", pos, j, suites[j].name(), pos, got.class()));
+                        }
+                        *pos += 1;
+                    }
+                    1 => {
+                        let ct = rs.seal_at(*pos as u128, &aad, &pt);
+                        let got = r.open(&ct, &aad);
+                        if got != Obs::Ok(pt.to_vec()) {
+                            fail(i, format!("open #{} of context {} ({}) does not return the plaintext: {}", pos, j, suites[j].name(), got.class()));
+                        }
+                        *pos += 1;
+                    }
+                    _ => {
+                        let ectx = (i as u32).to_be_bytes();
+                        let want = rs.export(&ectx, 24).unwrap();
+                        let got = if i % 2 == 0 { s.export(&ectx, 24) } else { r.export(&ectx, 24) };
+                        if got != Obs::Ok(want) {
+                            fail(i, format!("export #{} (context {}, {}) differs from R1: {}", i, j, suites[j].name(), got.class()));
+                        }
+                    }
+                }
+            }
+        }
+        _ => {
+            // setups / key derivations with a few rotating inputs, expected values computed once by R1
+            let suite = FC_SUITES[0];
+            let ops = suite_ops(suite);
+            let mut fx = vec![];
+            for j in 0..4u64 {
+                let k = keys(suite.kem, 33_000 + j, seed);
+                let m = mode_spec(if j % 2 == 0 { Mode::Base } else { Mode::AuthPsk }, &k, b"0123456789abcdef0123456789abcdef", b"id");
+                let info = bytes(Fill::Mix, 3 + j as usize, 33_000 + j, seed);
+                let (enc, mut rs) = r1_setup_s(suite, &m, &k.pk_r, &info, &k.ikm_e).expect("R1 setup");
+                let exp = rs.export(b"lr", 20).unwrap();
+                let ct = rs.seal(b"a", b"single").unwrap();
+                let ikm = bytes(Fill::Mix, 32, 33_100 + j, seed);
+                let (dsk, dpk, _) = suite.kem.derive_keypair(&ikm);
+                fx.push((k, m, info, enc, exp, ct, ikm, [dsk, dpk].concat()));
+            }
+            for i in 0..n {
+                let (k, m, info, enc, exp, ct, ikm, dkp) = &fx[(i % 4) as usize];
+                let ok = match kind {
+                    3 => match ops.setup_sender(m, &k.pk_r, info, &mut ScriptRng::new(&k.ikm_e)) {
+                        Obs::Ok((e, s)) => e == *enc && s.export(b"lr", 20) == Obs::Ok(exp.clone()),
+                        _ => false,
+                    },
+                    4 => match ops.setup_receiver(m, &k.sk_r, enc, info) {
+                        Obs::Ok(r) => r.export(b"lr", 20) == Obs::Ok(exp.clone()),
+                        _ => false,
+                    },
+                    5 => ops.kem().derive_keypair(ikm).map(|(a, b)| [a, b].concat()) == Obs::Ok(dkp.clone()),
+                    _ => ops.single_shot_seal(m, &k.pk_r, info, b"single", b"a", &mut ScriptRng::new(&k.ikm_e)) == Obs::Ok((enc.clone(), ct.clone())),
+                };
+                if !ok {
+                    fail(i, format!("{} #{} (input set {}) differs from R1", LR_KINDS[kind], i, i % 4));
+                }
+            }
+        }
+    }
+    println!("LR ok {}", n);
+    std::process::exit(0)
+}
+
+#[derive(Clone, Debug, Serialize, Deserialize)]
+struct LrCase {
+    kind: usize,
+    n: u64,
+}
+
+struct LongHistories;
+
+impl Part for LongHistories {
+    type Case = LrCase;
+    fn name(&self) -> String {
+        "E3g-long-process-histories".into()
+    }
+    fn rule(&self) -> String {
+        "one fresh process per operation kind {seal, open, export, setup_sender, setup_receiver, derive_keypair, single_shot_seal} performs n > 2^16 operations of that kind (seal/open/export round-robin over three live contexts on three suites; the others over four rotating input sets), EVERY result compared with R1; n exceeds 2^16 so that a 16-bit process-wide call counter or a cache that fills up is exercised".into()
+    }
+    fn bound(&self, cfg: &Cfg) -> String {
+        format!("{} kinds x n = {} (cheap kinds) / {} (setups)", LR_KINDS.len(), if cfg.tier.thorough() { (1u64 << 18) + 300 } else { (1u64 << 16) + 300 }, (1u64 << 16) + 300)
+    }
+    fn rerun_check(&self) -> bool {
+        false
+    }
+    fn enumerate(&self, cfg: &Cfg) -> Vec<LrCase> {
+        (0..LR_KINDS.len()).map(|kind| LrCase { kind, n: if cfg.tier.thorough() && kind < 3 { (1u64 << 18) + 300 } else { (1u64 << 16) + 300 } }).collect()
+    }
+    fn run(&self, cfg: &Cfg, c: &LrCase) -> CaseOut {
+        let mut out = CaseOut::new();
+        out.nontrivial = true;
+        out.outcome = LR_KINDS[c.kind].into();
+        let exe = match std::env::current_exe() {
+            Ok(e) => e,
+            Err(e) => {
+                out.fail_machinery(format!("current_exe: {}", e));
+                return out;
+            }
+        };
+        let res = match std::process::Command::new(exe).arg("--longrun").arg(cfg.seed.to_string()).arg(c.kind.to_string()).arg(c.n.to_string()).output() {
+            Ok(r) => r,
+            Err(e) => {
+                out.fail_machinery(format!("cannot start the child process: {}", e));
+                return out;
+            }
+        };
+        let text = String::from_utf8_lossy(&res.stdout).to_string();
+        out.transitions += c.n;
+        match text.lines().find(|l| l.starts_with("LR ")) {
+            Some(l) if l.starts_with("LR ok") => {}
+            Some(l) => out.fail(format!("a process doing nothing but {} {} operations: {}", c.n, LR_KINDS[c.kind], &l[3..])),
+            None => out.fail(format!("the process doing {} {} operations ended without a result (status {:?}): a library call took it down", c.n, LR_KINDS[c.kind], res.status.code())),
+        }
+        out
+    }
+}
+
 fn main() {
     let a: Vec<String> = std::env::args().collect();
+    if a.len() > 4 && a[1] == "--longrun" {
+        lr_child(&a[2..]);
+    }
+    if a.len() > 2 && a[1] == "--firstcall" {
+        fc_child(&a[2..]);
+    }
     let mut cfg = Cfg {
         prop: "C18".into(),
         tier: match std::env::var("VERIF_TIER").as_deref() {
@@ -1240,6 +1629,10 @@ fn main() {
             replay_part(&e3a, &cfg, &v["case"])
         } else if v["part"].as_str() == Some(&pairs.name()) {
             replay_part(&pairs, &cfg, &v["case"])
+        } else if v["part"].as_str() == Some(&LongHistories.name()) {
+            replay_part(&LongHistories, &cfg, &v["case"])
+        } else if v["part"].as_str() == Some(&FirstCalls { len3_suites: 3 }.name()) {
+            replay_part(&FirstCalls { len3_suites: 3 }, &cfg, &v["case"])
         } else {
             replay_part(&e3b, &cfg, &v["case"])
         };
@@ -1267,6 +1660,17 @@ fn main() {
     let pairs = SuitePairs { modes: if t { vec![Mode::Base, Mode::Psk, Mode::Auth, Mode::AuthPsk] } else { vec![Mode::Base, Mode::AuthPsk] } };
     if want(&pairs.name()) {
         let r = run_part(&pairs, &cfg);
+        eprintln!("  part {}: cases {} transitions {} violating {} ({:.1}s)", r.name, r.run, r.transitions, r.violations.len(), r.wall_s);
+        reports.push(r);
+    }
+    let fc = FirstCalls { len3_suites: if t { FC_SUITES.len() } else { 3 } };
+    if want(&fc.name()) {
+        let r = run_part(&fc, &cfg);
+        eprintln!("  part {}: cases {} transitions {} violating {} ({:.1}s)", r.name, r.run, r.transitions, r.violations.len(), r.wall_s);
+        reports.push(r);
+    }
+    if want(&LongHistories.name()) {
+        let r = run_part(&LongHistories, &cfg);
         eprintln!("  part {}: cases {} transitions {} violating {} ({:.1}s)", r.name, r.run, r.transitions, r.violations.len(), r.wall_s);
         reports.push(r);
     }
